@@ -1,3 +1,4 @@
+import math
 import flowpaths.utils.solverwrapper as sw
 import flowpaths.utils as utils
 import time
@@ -113,7 +114,8 @@ class MinGenSet():
             if not all(isinstance(constraint, list) for constraint in self.partition_constraints):
                 utils.logger.error(f"{__name__}: partition_constraints must be a list of lists.")
                 raise ValueError("partition_constraints must be a list of lists.")        
-            if not all(sum(constraint) == self.total for constraint in self.partition_constraints):
+            # Float parts that sum up to the total as decimal numbers (0.1 + 0.2 + 0.3 = 0.6) differ in the last binary digits
+            if not all(math.isclose(sum(constraint), self.total, rel_tol=1e-9, abs_tol=1e-9) for constraint in self.partition_constraints):
                 utils.logger.error(f"{__name__}: The sum of the numbers inside each subset constraint must equal the total value.")
                 raise ValueError("The sum of the numbers inside each subset constraint must equal the total value.")
 
